@@ -16,8 +16,12 @@ def make_scratch(tag):
     if os.path.exists(d):
         shutil.rmtree(d)
     os.makedirs(d)
-    subprocess.check_call(["rsync", "-a", "--exclude", "_build", "--exclude", ".git", "/repo/", d + "/"])
-    return d
+    for attempt in range(3):
+        rc = subprocess.call(["rsync", "-a", "--delete", "--exclude", "_build", "--exclude", ".git", "/repo/", d + "/"])
+        if rc == 0:
+            return d
+        time.sleep(1)          # 24 = a file vanished while copying (somebody else touched the tree): copy again
+    raise SystemExit("rsync of /repo failed (exit %d)" % rc)
 
 
 def run_check(scratch, prop, tier, tsec):
